@@ -15,7 +15,8 @@ from rules.prefilter import r05_8
 from rules.prefilter import r05_1
 from rules.utilfn import r04_10
 from rules.utilfn import r03_7
-RULES = [('R05.3', r05_3), ('R04.5i', r04_5_iter), ('R03.6', r03_6), ('R03.1', r03_1), ('R03.2', r03_2), ('R03.4', r03_4), ('R03.5', r03_5), ('R02.2', r02_2), ('R11.5', r11_5), ('R09.1', r09_1), ('R04.5r', r04_5_reader), ('R04.5w', r04_5_writer), ('R04.4', r04_4), ('R11.1', r11_1), ('R05.2', r05_2), ('R05.7', r05_7), ('R05.8', r05_8), ('R05.1', r05_1), ('R04.10', r04_10), ('R03.7', r03_7)]
+from rules.utilfn import r04_11
+RULES = [('R05.3', r05_3), ('R04.5i', r04_5_iter), ('R03.6', r03_6), ('R03.1', r03_1), ('R03.2', r03_2), ('R03.4', r03_4), ('R03.5', r03_5), ('R02.2', r02_2), ('R11.5', r11_5), ('R09.1', r09_1), ('R04.5r', r04_5_reader), ('R04.5w', r04_5_writer), ('R04.4', r04_4), ('R11.1', r11_1), ('R05.2', r05_2), ('R05.7', r05_7), ('R05.8', r05_8), ('R05.1', r05_1), ('R04.10', r04_10), ('R03.7', r03_7), ('R04.11', r04_11)]
 EXPLANATION = """R03.6 NFA::add_match links a new entry behind the LAST entry found by the tail walk `while matches[cur].link != ZERO` started at the list head (or installs it as head of an empty list), and NFA::copy_matches appends one entry per source entry behind the running destination tail in source order (iteration summaries): no entry of a list with three or more members can be dropped or reordered. R03.1 stepping discipline of try_find_overlapping_fwd_imp: publishing list entry i stores next_match_index = Some(i + 1), the entry
 index is checked against match_len before it is read, positions are input.start() for the start state and at + 1 otherwise; on
 exhaustion at += 1 and both next_match_index and mat are cleared; state.id is saved on special states and at the end of the span;
